@@ -10,6 +10,7 @@ package main
 // exact, and two abstract strings are equal iff their normal forms are.  Maps are keyed by the normal form.
 
 import (
+	"net/textproto"
 	"fmt"
 	"net"
 	"sort"
@@ -250,6 +251,15 @@ func (e *absEnv) strCall(name string, args []aval) (aval, bool) {
 	}
 	strT := types.Typ[types.String]
 	switch name {
+	case "strings.Count":
+		if len(args) == 2 {
+			if a, ok := lit(0); ok {
+				if b, ok := lit(1); ok {
+					return aint(int64(strings.Count(a, b))), true
+				}
+			}
+		}
+		return nil, false
 	case "strings.ToLower":
 		if !isStr(0) {
 			return nil, false
@@ -1125,7 +1135,12 @@ func (e *absEnv) stdCall(fr *absFrame, name string, args []aval, depth int) (ava
 			}
 			return nil, false
 		}
-		k, ok := keyOf(args[1]) // header names in the modelled code are canonical literals or opaque names
+		// a concrete header name is canonicalised as net/http does; opaque names are taken as they are
+		if cs, isC := args[1].(astr); isC {
+			args = append([]aval{}, args...)
+			args[1] = astr(textproto.CanonicalMIMEHeaderKey(string(cs)))
+		}
+		k, ok := keyOf(args[1])
 		if !ok {
 			return nil, false
 		}
